@@ -90,7 +90,8 @@ def gen_update_opts(rng, info, prior_kind, allow_sub=True, api=None):
         u.pop('sort', None)      # no CLI flag for it
         if 'path' in u and rng.random() < 0.35:
             # one invocation naming two directories that share the top-level Manifest
-            others = [d for d in info['dirs'] if d and d != u['path'] and not any(c.startswith('.') for c in d.split('/'))]
+            others = [d for d in info['dirs'] if d and d != u['path'] and not any(c.startswith('.') for c in d.split('/'))
+                      and not (d + '/').startswith(u['path'] + '/') and not (u['path'] + '/').startswith(d + '/')]
             if others:
                 u['path2'] = rng.choice(others)
     elif rng.random() < 0.2 and prior_kind != 'absent':
